@@ -11,7 +11,7 @@ PROP = "C07"
 FAMS = ["bin", "flat3", "flat4", "un", "asg", "inc", "cond", "rec", "err", "tree"]
 DIG = "0123456789abcdefghijklmnopqrstuvwxyzABCDEFGHIJKLMNOPQRSTUVWXYZ@_"
 SETUP = {1: "x=5", 2: "x=-9223372036854775808", 3: "unset x", 4: "x=-1"}
-SETUP_REST = "unset y; z='x+1'; w='z*2'; e=; v=y; bad='1 +'; cyc='cyc+1'"
+SETUP_REST = "unset y; z='x+1'; w='z*2'; e=; v=y; bad='1 +'; cyc='cyc+1'; oc=010; hx=0x1F; ng=-017"
 
 
 def sval(b):
